@@ -1,6 +1,7 @@
 (* C17 - Alignment validity checks accept exactly partitions and covers.  Proofs in theories/Check/Proofs.v. *)
-From Coq Require Import List Arith ZArith Bool Permutation.
+From Coq Require Import String List Arith ZArith Bool Permutation.
 From PGA Require Import Check.Model Check.Proofs.
+From PGAprops Require Import ShapesGen.
 Import ListNotations.
 
 (* exact characterisation of Alignment.check *)
@@ -46,3 +47,14 @@ Example C17_example :
   check_soft cont [[(0, Some 0); (1, Some 0)]; [(0, Some 1); (1, Some 0)]]%Z = ROk /\
   check_align cont [] = RPartition /\ check_align [] [] = ROk.
 Proof. vm_compute. repeat split. Qed.
+
+(* ---------------------------------------------------------------------------------------------------------------------------------
+   Tie to the source (re-proved on every run against genprops/ShapesGen.v, read from the CURRENT sources by harness/gen_shapes.py): the bodies
+   below, as normalised text, are the ones the model follows statement by statement. *)
+Fixpoint lookup_src (k : string) (l : list (string * string)) : option string :=
+  match l with [] => None | (a, b) :: r => if String.eqb k a then Some b else lookup_src k r end.
+(* Alignment.check: lengths, then the continuum's pairs not among the alignment's real pairs (missing), then the real pairs counted more than once (repeated); SoftAlignment.check: lengths, an occurrence table indexed by the continuum's pairs (a foreign pair is a KeyError), then every count must be non-zero *)
+Theorem C17_src_checks :
+  lookup_src "check" alignment_src = Some "(self, continuum=None) if continuum is None: [if self.continuum is None: [raise ValueError]; continuum = self.continuum]; first_len = len(self.unitary_alignments[0].n_tuple) if self.unitary_alignments else 0; for unit_align in self.unitary_alignments: [if len(unit_align.n_tuple) != first_len: [raise ValueError]]; continuum_tuples = set(); for (annotator, unit) in continuum: [continuum_tuples.add((annotator, unit))]; alignment_tuples = list(); for unitary_alignment in self.unitary_alignments: [for (annotator, unit) in unitary_alignment.n_tuple: [if unit is None: [continue]; alignment_tuples.append((annotator, unit))]]; missing_tuples = continuum_tuples - set(alignment_tuples); if missing_tuples: [repeated_tuples_str = ', '.join((f'{annotator}->{unit}' for annotator, unit in missing_tuples)); raise SetPartitionError]; tuples_counts = Counter(alignment_tuples); repeated_tuples = {tup for tup, count in tuples_counts.items() if count > 1}; if repeated_tuples: [repeated_tuples_str = ', '.join((f'{annotator}->{unit}' for annotator, unit in repeated_tuples)); raise SetPartitionError]"%string /\
+  lookup_src "check" softalignment_src = Some "(self, continuum=None) if continuum is None: [if self.continuum is None: [raise ValueError]; continuum = self.continuum]; first_len = len(self.unitary_alignments[0].n_tuple) if self.unitary_alignments else 0; for unit_align in self.unitary_alignments: [if len(unit_align.n_tuple) != first_len: [raise ValueError]]; unit_occurences = SortedDict({annotator: SortedDict({unit: 0 for unit in units}) for annotator, units in continuum._annotations.items()}); for (i, unitary_align) in enumerate(self): [for (annotator, unit) in unitary_align.n_tuple: [if unit is not None: [unit_occurences[annotator][unit] += 1]]]; for (annotator, factors) in unit_occurences.items(): [for (unit, factor) in factors.items(): [if factor == 0: [raise SetPartitionError]]]"%string.
+Proof. repeat split. Qed.
